@@ -46,7 +46,7 @@ import (
 // ---------------------------------------------------------------- syntax
 
 type Expr struct {
-	K    byte // 'n' null, 't','f','u' ternary, 'i' int, 'v' var, '+','-','<','=' binary, 'c' call
+	K    byte // 'n' null, 't','f','u' ternary, 'i' int, 'v' var, '+','-','<','=' binary, 'c' call, 'T' rows of table X
 	N    int64
 	X    int
 	A, B *Expr
@@ -64,7 +64,7 @@ type Branch struct {
 }
 
 type Stmt struct {
-	K        byte // D A X P I W E Z B K Q R F Y
+	K        byte // D A X P I W E Z B K Q R F Y; temporary table X: V declare, N insert Rows rows, L delete all, U dispose
 	Form     byte // 'Z' (statements executed indirectly, in the current block): 's' SOURCE file, 'e' EXECUTE 'text', 'p' EXECUTE prepared
 	Decl     bool // 'E': WHILE VAR @x IN …
 	Rows     int  // 'E': the cursor yields the rows 0 … Rows-1
@@ -80,6 +80,8 @@ type Stmt struct {
 }
 
 const (
+	poolTables = 2 // t0, t1: temporary tables; in the model the variable tableVar+k holding the number of rows
+	tableVar   = 100
 	poolVars   = 4 // @v0..@v3: the names random statements declare, assign, dispose
 	budgetVar  = 4 // @v4: first parameter of every function, the decreasing call budget
 	firstCount = 5 // @v5…: loop counters, one per WHILE statement
@@ -90,6 +92,7 @@ const (
 
 func vname(x int) string { return "@v" + strconv.Itoa(x) }
 func fname(f int) string { return "fn" + strconv.Itoa(f) }
+func tname(t int) string { return "t" + strconv.Itoa(t) }
 
 // ---- model encoding
 
@@ -102,6 +105,8 @@ func (e *Expr) enc(b *strings.Builder) {
 		fmt.Fprintf(b, " i%d", e.N)
 	case 'v':
 		fmt.Fprintf(b, " v%d", e.X)
+	case 'T':
+		fmt.Fprintf(b, " v%d", tableVar+e.X)
 	case '+', '-', '<', '=':
 		b.WriteByte(' ')
 		b.WriteByte(e.K)
@@ -147,6 +152,14 @@ func (s *Stmt) enc(b *strings.Builder) {
 		b.WriteString(" W")
 		s.E.enc(b)
 		encBlock(b, s.Body)
+	case 'V':
+		fmt.Fprintf(b, " T%d", tableVar+s.X)
+	case 'N':
+		fmt.Fprintf(b, " A%d + v%d i%d", tableVar+s.X, tableVar+s.X, s.Rows)
+	case 'L':
+		fmt.Fprintf(b, " A%d i0", tableVar+s.X)
+	case 'U':
+		fmt.Fprintf(b, " X%d", tableVar+s.X)
 	case 'Z':
 		b.WriteString(" Z")
 		encBlock(b, s.Body)
@@ -198,6 +211,8 @@ func (e *Expr) sql(b *strings.Builder) {
 		fmt.Fprintf(b, "%d", e.N)
 	case 'v':
 		b.WriteString(vname(e.X))
+	case 'T':
+		b.WriteString("(SELECT COUNT(*) FROM " + tname(e.X) + ")")
 	case '+', '-', '<', '=':
 		b.WriteByte('(')
 		e.A.sql(b)
@@ -300,6 +315,14 @@ func (s *Stmt) sql(b *strings.Builder) {
 		b.WriteString(" DO ")
 		sqlBlock(b, s.Body)
 		b.WriteString("END WHILE;")
+	case 'V':
+		b.WriteString("DECLARE " + tname(s.X) + " VIEW (c1);")
+	case 'N':
+		b.WriteString("INSERT INTO " + tname(s.X) + " VALUES (1)" + strings.Repeat(", (2)", s.Rows-1) + ";")
+	case 'L':
+		b.WriteString("DELETE FROM " + tname(s.X) + ";")
+	case 'U':
+		b.WriteString("DISPOSE VIEW " + tname(s.X) + ";")
 	case 'Z': // one statement; what it runs is in a file, in a string, or prepared in front of the program
 		var ib strings.Builder
 		sqlBlock(&ib, s.Body)
@@ -401,6 +424,7 @@ type genCtx struct {
 	declared  map[int]bool   // pool variables declared in the block being generated
 	fns       map[int][2]int // functions probably visible: (required, total) parameters beyond the budget parameter
 	fdeclared map[int]bool   // functions declared in the block being generated
+	tvisible  map[int]bool   // temporary tables probably visible here
 }
 
 type pgen struct {
@@ -421,7 +445,11 @@ func (c genCtx) child() genCtx {
 	for k, a := range c.fns {
 		f[k] = a
 	}
-	c.visible, c.fns = v, f
+	t := map[int]bool{}
+	for k := range c.tvisible {
+		t[k] = true
+	}
+	c.visible, c.fns, c.tvisible = v, f, t
 	c.declared, c.fdeclared = map[int]bool{}, map[int]bool{}
 	c.depth++
 	return c
@@ -459,6 +487,10 @@ func (p *pgen) expr(c genCtx, d int, calls bool) *Expr {
 		}
 		return lit(int64(p.g.Intn(6)))
 	case r < 55:
+		if len(c.tvisible) > 0 && p.g.Intn(4) == 0 {
+			ks := sortedKeys(c.tvisible)
+			return &Expr{K: 'T', X: ks[p.g.Intn(len(ks))]}
+		}
 		return vr(p.pickVar(c))
 	case r < 72:
 		return bin("+-"[p.g.Intn(2)], p.expr(c, d+1, calls), p.expr(c, d+1, calls))
@@ -566,8 +598,37 @@ func (p *pgen) stmt(c genCtx) []*Stmt {
 		}
 		p.note('X', c)
 		return []*Stmt{{K: 'X', X: x}}
-	case r < 45:
+	case r < 39:
 		break // PRINT below
+	case r < 45:
+		// temporary tables: declared in this block, changed and read from any depth below it
+		t := p.g.Intn(poolTables)
+		vis := sortedKeys(c.tvisible)
+		if len(vis) == 0 || p.g.Intn(4) == 0 {
+			for k := 0; k < 3 && c.tvisible[t] && p.g.Intn(100) < 92; k++ { // a visible name cannot be declared again
+				t = p.g.Intn(poolTables)
+			}
+			c.tvisible[t] = true
+			p.note('V', c)
+			return []*Stmt{{K: 'V', X: t}}
+		}
+		if p.g.Intn(100) < 94 {
+			t = vis[p.g.Intn(len(vis))]
+		}
+		switch q := p.g.Intn(20); {
+		case q < 12:
+			p.note('N', c)
+			return []*Stmt{{K: 'N', X: t, Rows: 1 + p.g.Intn(3)}}
+		case q < 15:
+			p.note('L', c)
+			return []*Stmt{{K: 'L', X: t}}
+		case q < 16 && !c.noDisp:
+			delete(c.tvisible, t)
+			p.note('U', c)
+			return []*Stmt{{K: 'U', X: t}}
+		}
+		p.note('P', c)
+		return []*Stmt{{K: 'P', E: &Expr{K: 'T', X: t}}}
 	case r < 50:
 		// statements that reach the current block indirectly: SOURCE file / EXECUTE 'text' / EXECUTE prepared
 		if p.budget <= 0 {
@@ -801,7 +862,7 @@ func newPgen(g *hc.Gen) *pgen {
 }
 
 func topCtx(noDisp bool) genCtx {
-	return genCtx{visible: map[int]bool{}, declared: map[int]bool{}, fns: map[int][2]int{}, fdeclared: map[int]bool{}, noDisp: noDisp}
+	return genCtx{visible: map[int]bool{}, declared: map[int]bool{}, fns: map[int][2]int{}, fdeclared: map[int]bool{}, tvisible: map[int]bool{}, noDisp: noDisp}
 }
 
 func (p *pgen) program(c genCtx) []*Stmt {
@@ -897,6 +958,12 @@ func scopeState(rs *query.ReferenceScope) (string, string) {
 		b.Variables.Range(func(key, val interface{}) bool {
 			k := idxOf(key.(string), "v")
 			l = append(l, kv{k, fmt.Sprintf("%d=%s", k, canonVal(val.(value.Primary)))})
+			return true
+		})
+		b.TemporaryTables.Range(func(key, val interface{}) bool {
+			if k := idxOf(key.(string), "t"); k < poolTables { // the temporary tables of the program, not tq
+				l = append(l, kv{tableVar + k, fmt.Sprintf("%d=I%d", tableVar+k, val.(*query.View).RecordLen())})
+			}
 			return true
 		})
 		sort.Slice(l, func(i, j int) bool { return l[i].k < l[j].k })
@@ -1035,6 +1102,11 @@ func execPatched(pr *hc.Proc, sql string, my []*Stmt, skip int) result {
 	r.code = errNumber(err)
 	if err != nil {
 		r.flow = fmt.Sprintf("E%d", r.code)
+		if r.code == query.ErrorFileNotExist || r.code == query.ErrorUndeclaredTemporaryTable {
+			// a table that is not declared ("file t0 does not exist" from INSERT / DELETE / SELECT, "view t0 is
+			// undeclared" from DISPOSE VIEW): the model's tables are variables, its answer is "undeclared variable"
+			r.flow = fmt.Sprintf("E%d", query.ErrorUndeclaredVariable)
+		}
 	} else {
 		r.flow = flowName[flow]
 		switch flow {
@@ -1238,6 +1310,51 @@ func lawsObjects(g *hc.Gen, o *hc.Out) {
 		o.Count("law:outer_assign")
 		if got := joinOr(r.out, "-"); r.code != 0 || got != fmt.Sprintf("I%d", v) {
 			report(o, "outer_assign_persists", lawCase{"outer_assign_persists", []string{sql}, r.flow + " " + got, fmt.Sprintf("I%d", v)})
+		}
+		pr.Close()
+	}
+	// 4. an object with state, declared in an INTERMEDIATE block (1..3 blocks below the session scope), changed from
+	//    1..3 blocks further in (also through SOURCE / EXECUTE), read back in the declaring block after the inner
+	//    blocks have ended: the change reached it
+	type state struct {
+		name, decl, change, read, want string
+	}
+	states := []state{
+		{"table_insert", "DECLARE tz VIEW (c1); INSERT INTO tz VALUES (1);", "INSERT INTO tz VALUES (2), (3);",
+			"SELECT COUNT(*) INTO @r FROM tz; PRINT @r;", "I3"},
+		{"table_delete", "DECLARE tz VIEW (c1); INSERT INTO tz VALUES (1), (2), (3);", "DELETE FROM tz WHERE c1 < 3;",
+			"SELECT COUNT(*) INTO @r FROM tz; PRINT @r;", "I1"},
+		{"table_update", "DECLARE tz VIEW (c1); INSERT INTO tz VALUES (1), (2);", "UPDATE tz SET c1 = (c1 + 10);",
+			"SELECT SUM(c1) INTO @r FROM tz; PRINT @r;", "I23"},
+		{"table_replace", "DECLARE tz VIEW (c1, c2); INSERT INTO tz VALUES (1, 1), (2, 2);", "REPLACE INTO tz (c1, c2) USING (c1) VALUES (2, 20), (3, 30);",
+			"SELECT SUM(c2) INTO @r FROM tz; PRINT @r;", "I51"},
+		{"table_alter_add", "DECLARE tz VIEW (c1); INSERT INTO tz VALUES (1);", "ALTER TABLE tz ADD (c2);",
+			"SELECT COUNT(*) INTO @r FROM tz WHERE c2 IS NULL; PRINT @r;", "I1"},
+		{"table_alter_drop", "DECLARE tz VIEW (c1, c2); INSERT INTO tz VALUES (1, 2);", "ALTER TABLE tz DROP (c2);",
+			"INSERT INTO tz VALUES (5); SELECT COUNT(*) INTO @r FROM tz; PRINT @r;", "I2"},
+		{"table_alter_rename", "DECLARE tz VIEW (c1); INSERT INTO tz VALUES (4);", "ALTER TABLE tz RENAME c1 TO c9;",
+			"SELECT SUM(c9) INTO @r FROM tz; PRINT @r;", "I4"},
+		{"cursor_fetch", "DECLARE cz CURSOR FOR SELECT 1 UNION ALL SELECT 2 UNION ALL SELECT 3; OPEN cz;", "FETCH cz INTO @r;",
+			"FETCH cz INTO @r; PRINT @r;", "I2"},
+		{"cursor_open", "DECLARE cz CURSOR FOR SELECT 7;", "OPEN cz;", "FETCH cz INTO @r; PRINT @r;", "I7"},
+		{"cursor_close", "DECLARE cz CURSOR FOR SELECT 7; OPEN cz; FETCH cz INTO @r;", "CLOSE cz;", "OPEN cz; FETCH cz INTO @r; PRINT @r;", "I7"},
+		{"var", "VAR @zz := 1;", "@zz := (@zz + 6);", "PRINT @zz;", "I7"},
+		{"function_dispose", "DECLARE fz FUNCTION () AS BEGIN RETURN 2; END;", "DISPOSE FUNCTION fz; DECLARE fz FUNCTION () AS BEGIN RETURN 3; END;",
+			"DECLARE fz FUNCTION () AS BEGIN RETURN 4; END; PRINT fz();", "I4"},
+	}
+	stt := states[g.Intn(len(states))]
+	{
+		pr := newProc()
+		inner, kinds := wrap(g, indirect(g, o, stt.change, &id), 1+g.Intn(3), &id)
+		middle := stt.decl + " " + inner + " " + stt.read
+		outer, okinds := wrap(g, middle, 1+g.Intn(3), &id)
+		sql := "VAR @r; " + outer
+		r := exec(pr, sql)
+		o.Count("law:inner_change_" + stt.name)
+		o.Count("law_change_from:" + kinds[len(kinds)-1] + "_in_" + okinds[0])
+		if got := joinOr(r.out, "-"); r.code != 0 || got != stt.want {
+			report(o, "inner_change_reaches_declaring_block_"+stt.name, lawCase{"inner_change_reaches_declaring_block_" + stt.name,
+				[]string{sql}, r.flow + " " + got, "N " + stt.want})
 		}
 		pr.Close()
 	}
